@@ -207,6 +207,23 @@ func execOPRF(p *Plan, run *core.Run) {
 	// server
 	var ev *oprf.Evaluation
 	sinfo := info
+	if mode == oprf.PartialObliviousMode && p.Seed%2 == 1 && len(info) > 0 {
+		// history: the server keeps its info in one buffer; an earlier epoch used the same key
+		// object with other content in that buffer, which was then refilled in place
+		ibuf := make([]byte, len(info))
+		for i := range ibuf {
+			ibuf[i] = ^info[i]
+		}
+		warm := oprf.NewPartialObliviousServer(suite, sk)
+		if _, err := warm.Evaluate(sreq, ibuf); err != nil {
+			run.Violate(comp+".Evaluate", "error", "%v", err)
+			return
+		}
+		warm.FullEvaluate(inputs[0], ibuf)
+		copy(ibuf, info)
+		sinfo = ibuf
+		run.Fault("history:server-info-buffer-refilled-between-epochs")
+	}
 	switch mode {
 	case oprf.BaseMode:
 		ev, err = oprf.NewServer(suite, sk).Evaluate(sreq)
@@ -373,7 +390,7 @@ func execOPRF(p *Plan, run *core.Run) {
 		case oprf.VerifiableMode:
 			o, e = oprf.NewVerifiableServer(suite, sk).FullEvaluate(in)
 		default:
-			o, e = oprf.NewPartialObliviousServer(suite, sk).FullEvaluate(in, info)
+			o, e = oprf.NewPartialObliviousServer(suite, sk).FullEvaluate(in, sinfo)
 		}
 		if e != nil {
 			panic("HARNESS: FullEvaluate: " + e.Error())
@@ -398,7 +415,7 @@ func execOPRF(p *Plan, run *core.Run) {
 			case oprf.VerifiableMode:
 				ok = oprf.NewVerifiableServer(suite, sk).VerifyFinalize(inputs[i], outs[i])
 			default:
-				ok = oprf.NewPartialObliviousServer(suite, sk).VerifyFinalize(inputs[i], info, outs[i])
+				ok = oprf.NewPartialObliviousServer(suite, sk).VerifyFinalize(inputs[i], sinfo, outs[i])
 			}
 			if !ok {
 				run.Violate(comp+".VerifyFinalize", "rejects-honest-output", "input %d", i)
